@@ -138,7 +138,8 @@ Definition line_of (v : val) : line := match v with VI z => LI z | VB b => LB b 
    produces it); [Stuck]: the program is ill-formed (unbound name, operand of the wrong type) *)
 Inductive stop := Done | ZeroDiv | StepZero | Unspec | RustPanic | OutOfFuel | Stuck.
 
-Inductive sig := Go | Brk | Cont | Halt (k : stop).
+(* [Ret v]: a `return` is unwinding to the enclosing call (v = None for `return` without value) *)
+Inductive sig := Go | Brk | Cont | Ret (v : option val) | Halt (k : stop).
 
 Definition stop_of (r : eres) : stop :=
   match r with EV _ => Stuck | EZeroDiv => ZeroDiv | EUnspec => Unspec | EStuck => Stuck end.
@@ -166,18 +167,47 @@ Definition eval_rargs (E : env) (r : rargs) : eres * eres * eres :=
 Definition range_done (cur stp step : Z) : bool :=
   if 0 <? step then stp <=? cur else cur <=? stp.
 
-Fixpoint exec_stmt (fuel : nat) (E : env) (s : stmt) {struct fuel} : xres :=
+(* arguments (call-free) evaluated left to right in WRITTEN order; the first that is not a value
+   stops the evaluation *)
+Fixpoint eval_args (E : env) (l : list expr) : list val + eres :=
+  match l with
+  | [] => inl []
+  | e :: r => match eval E e with
+              | EV v => match eval_args E r with inl vs => inl (v :: vs) | inr x => inr x end
+              | x => inr x
+              end
+  end.
+
+(* result of a call expression: a value, no value (a function returning None), or a stop *)
+Inductive cres := CV (v : option val) | CHalt (k : stop).
+
+(* a call-level expression: a call-free expression is evaluated on the spot, a call through [callf] *)
+Definition cev_with (callf : ident -> list expr -> list (ident * expr) -> list line * cres)
+                    (E : env) (c : cexpr) : list line * cres :=
+  match c with
+  | CPure e => match eval E e with
+               | EV v => ([], CV (Some v))
+               | r => ([], CHalt (stop_of r))
+               end
+  | CCall fn pos kw => callf fn pos kw
+  end.
+
+(* [P]: the function table *)
+
+Fixpoint exec_stmt (P : prog) (fuel : nat) (E : env) (s : stmt) {struct fuel} : xres :=
   match fuel with
   | O => ([], E, Halt OutOfFuel)
   | S f =>
     match s with
-    | SAssign k x _ e =>
-        match eval E e with
-        | EV v => match k with
-                  | BInferred => if bound x E then ([], eupdate x v E, Go) else ([], ebind x v E, Go)
-                  | _ => ([], ebind x v E, Go)
-                  end
-        | r => ([], E, Halt (stop_of r))
+    | SAssign k x _ c =>
+        match cev_with (call P f E) E c with
+        | (o, CV (Some v)) =>
+            match k with
+            | BInferred => if bound x E then (o, eupdate x v E, Go) else (o, ebind x v E, Go)
+            | _ => (o, ebind x v E, Go)
+            end
+        | (o, CV None) => (o, E, Halt Stuck)
+        | (o, CHalt k) => (o, E, Halt k)
         end
     | SCompound o x e =>
         match eval E (EBin (binop_of_cop o) (EVar x) e) with
@@ -186,17 +216,18 @@ Fixpoint exec_stmt (fuel : nat) (E : env) (s : stmt) {struct fuel} : xres :=
         end
     | SIf c th el =>
         match eval E c with
-        | EV (VB true) => in_scope (length E) (exec_block f E th)
-        | EV (VB false) => exec_els f E el
+        | EV (VB true) => in_scope (length E) (exec_block P f E th)
+        | EV (VB false) => exec_els P f E el
         | r => ([], E, Halt (stop_of r))
         end
     | SWhile c b =>
         match eval E c with
         | EV (VB true) =>
-            let '(o, E1, g) := in_scope (length E) (exec_block f E b) in
+            let '(o, E1, g) := in_scope (length E) (exec_block P f E b) in
             match g with
-            | Go | Cont => let '(o2, E2, g2) := exec_stmt f E1 (SWhile c b) in (o ++ o2, E2, g2)
+            | Go | Cont => let '(o2, E2, g2) := exec_stmt P f E1 (SWhile c b) in (o ++ o2, E2, g2)
             | Brk => (o, E1, Go)
+            | Ret v => (o, E1, Ret v)
             | Halt k => (o, E1, Halt k)
             end
         | EV (VB false) => ([], E, Go)
@@ -205,68 +236,111 @@ Fixpoint exec_stmt (fuel : nat) (E : env) (s : stmt) {struct fuel} : xres :=
     | SFor x r b =>
         match eval_rargs E r with
         | (EV (VI a), EV (VI z), EV (VI st)) =>
-            if st =? 0 then ([], E, Halt StepZero) else exec_range f E x a z st b
+            if st =? 0 then ([], E, Halt StepZero) else exec_range P f E x a z st b
         | (EV (VI _), EV (VI _), r3) => ([], E, Halt (stop_of r3))
         | (EV (VI _), r2, _) => ([], E, Halt (stop_of r2))
         | (r1, _, _) => ([], E, Halt (stop_of r1))
         end
-    | SPrint e =>
-        match eval E e with
-        | EV v => ([line_of v], E, Go)
-        | r => ([], E, Halt (stop_of r))
+    | SPrint c =>
+        match cev_with (call P f E) E c with
+        | (o, CV (Some v)) => (o ++ [line_of v], E, Go)
+        | (o, CV None) => (o, E, Halt Stuck)
+        | (o, CHalt k) => (o, E, Halt k)
+        end
+    | SExpr c =>
+        match cev_with (call P f E) E c with
+        | (o, CV _) => (o, E, Go)
+        | (o, CHalt k) => (o, E, Halt k)
+        end
+    | SReturn None => ([], E, Ret None)
+    | SReturn (Some c) =>
+        match cev_with (call P f E) E c with
+        | (o, CV (Some v)) => (o, E, Ret (Some v))
+        | (o, CV None) => (o, E, Halt Stuck)
+        | (o, CHalt k) => (o, E, Halt k)
         end
     | SPass => ([], E, Go)
     | SBreak => ([], E, Brk)
     | SContinue => ([], E, Cont)
     end
   end
-with exec_block (fuel : nat) (E : env) (b : block) {struct fuel} : xres :=
+with exec_block (P : prog) (fuel : nat) (E : env) (b : block) {struct fuel} : xres :=
   match fuel with
   | O => ([], E, Halt OutOfFuel)
   | S f =>
     match b with
     | BNil => ([], E, Go)
-    | BCons s r => xseq (exec_stmt f E s) (fun E1 => exec_block f E1 r)
+    | BCons s r => xseq (exec_stmt P f E s) (fun E1 => exec_block P f E1 r)
     end
   end
-with exec_els (fuel : nat) (E : env) (el : els) {struct fuel} : xres :=
+with exec_els (P : prog) (fuel : nat) (E : env) (el : els) {struct fuel} : xres :=
   match fuel with
   | O => ([], E, Halt OutOfFuel)
   | S f =>
     match el with
     | ENone => ([], E, Go)
-    | EElse b => in_scope (length E) (exec_block f E b)
+    | EElse b => in_scope (length E) (exec_block P f E b)
     | EElif c b rest =>
         match eval E c with
-        | EV (VB true) => in_scope (length E) (exec_block f E b)
-        | EV (VB false) => exec_els f E rest
+        | EV (VB true) => in_scope (length E) (exec_block P f E b)
+        | EV (VB false) => exec_els P f E rest
         | r => ([], E, Halt (stop_of r))
         end
     end
   end
-with exec_range (fuel : nat) (E : env) (x : ident) (cur stp step : Z) (b : block) {struct fuel} : xres :=
+with exec_range (P : prog) (fuel : nat) (E : env) (x : ident) (cur stp step : Z) (b : block) {struct fuel} : xres :=
   match fuel with
   | O => ([], E, Halt OutOfFuel)
   | S f =>
     if range_done cur stp step then ([], E, Go) else
-    let '(o, E1, g) := in_scope (length E) (exec_block f ((x, VI cur) :: E) b) in
+    let '(o, E1, g) := in_scope (length E) (exec_block P f ((x, VI cur) :: E) b) in
     match g with
     | Go | Cont =>
         (* Python's range over unbounded ints: a next value outside i64 is past the end *)
         if in_i64b (cur + step)
-        then let '(o2, E2, g2) := exec_range f E1 x (cur + step) stp step b in (o ++ o2, E2, g2)
+        then let '(o2, E2, g2) := exec_range P f E1 x (cur + step) stp step b in (o ++ o2, E2, g2)
         else (o, E1, Go)
     | Brk => (o, E1, Go)
+    | Ret v => (o, E1, Ret v)
     | Halt k => (o, E1, Halt k)
+    end
+  end
+(* call/return: the callee is looked up in the function table, the arguments are evaluated left to
+   right in written order and bound to the parameters by name ([select]); the body runs in a fresh
+   environment holding only the parameters *)
+with call (P : prog) (fuel : nat) (E : env) (fn : ident) (pos : list expr) (kw : list (ident * expr)) {struct fuel}
+  : list line * cres :=
+  match fuel with
+  | O => ([], CHalt OutOfFuel)
+  | S f =>
+    match find_fn fn P with
+    | None => ([], CHalt Stuck)
+    | Some d =>
+        match eval_args E (pos ++ map snd kw) with
+        | inr r => ([], CHalt (stop_of r))
+        | inl vs =>
+            match select (fparams d) (length pos) O (map fst kw) with
+            | None => ([], CHalt Stuck)
+            | Some sel =>
+                match pick vs sel with
+                | None => ([], CHalt Stuck)
+                | Some bound_vals =>
+                    let '(o, _, g) := exec_block P f (combine (fparams d) bound_vals) (fbody d) in
+                    match g with
+                    | Ret (Some v) => if fret d then (o, CV (Some v)) else (o, CHalt Stuck)
+                    | Ret None | Go => if fret d then (o, CHalt Stuck) else (o, CV None)
+                    | Brk | Cont => (o, CHalt Stuck)
+                    | Halt k => (o, CHalt k)
+                    end
+                end
+            end
+        end
     end
   end.
 
-Definition final (g : sig) : stop :=
-  match g with Go => Done | Brk | Cont => Stuck | Halt k => k end.
-
-Definition init_env (c : fcase) : env := combine (params c) (map VI (args c)).
-
-(* the observable behaviour the documentation assigns to calling the function *)
+(* the observable behaviour the documentation assigns to calling the entry function with [args] *)
 Definition run (fuel : nat) (c : fcase) : list line * stop :=
-  if negb (Nat.eqb (length (params c)) (length (args c))) then ([], Stuck) else
-  let '(o, _, g) := exec_block fuel (init_env c) (body c) in (o, final g).
+  match call (cprog c) fuel [] (centry c) (map EInt (args c)) [] with
+  | (o, CV _) => (o, Done)
+  | (o, CHalt k) => (o, k)
+  end.
